@@ -9,8 +9,11 @@ COMMON_ASSUMPTIONS = [
 ]
 
 
-def T(name, qchecks, tchecks, qshards=1, tshards=16, **kw):
+def T(name, qchecks, tchecks, qshards=1, tshards=16, steps=None, **kw):
     d = {"name": name, "quick": {"checks": qchecks, "shards": qshards}, "thorough": {"checks": tchecks, "shards": tshards}}
+    if steps:
+        d["quick"]["steps"] = steps
+        d["thorough"]["steps"] = steps
     d.update(kw)
     return d
 
@@ -71,5 +74,58 @@ CHECKS = {
         "level_text": "Fault enumeration by generated schedules: every bank operation of the distributor can be failed per call through a wrapper implementing the module's BankKeeper interface (the keeper is built with the public NewKeeper on the app's own store; no repo hook). After every block the C03 identity (books == main balance, conservation over all configured accounts and burned coins) and the fault-aware reference model must hold; after the fault-free suffix each account's balance must equal the fault-free twin's within one base unit per key. The level is fault_enumeration because the quantifier is over failure patterns and the harness owns the failure schedule.",
         "level_note": "Twin comparison preconditions (DESIGN §5 C14): acyclic flow through real accounts, no real account swept by two sub-distributors, the permanently unsweepable account is not also a destination. The per-block identity and model checks run on all cases. Trusted: reference model, x/bank.",
         "design_ref": "DESIGN.md §5 C14",
+    },
+    "C05": {
+        "title": "Vesting module account is always exactly backed by its pools",
+        "level": "exploration",
+        "technique": "stateful property-based testing (rapid state machine over the vesting message grammar); invariant oracle after every message, state-digest comparison for rejected messages",
+        "tests": [T("TestC05", 500, 2500, qshards=2, steps=50)],
+        "rule": "cases = 1-4 generated vesting types (free fraction from a boundary pool, lockup/vesting 0s..3y) + 0-6 seeded pools + a rapid state machine (avg 50 steps) over create-pool / send-to-vesting-account / withdraw-all / create-vesting-account / split / move / move-by-denoms / advance-time (to lock-end-1ns, lock end, +1ns, or by 1ns..1y), arguments drawn relative to the current state (existing and missing pools and types, amount in {0, 1, remainder, remainder+1, -1, random}, recipient in {fresh, existing, self, blocked module}). "
+                "Non-trivial = history contains an accepted send, a withdrawal that paid after a lock end, and a rejected message. Distinct = SHA-256 of the operation history.",
+        "min_nontrivial_fraction": 0.2,
+        "min_class_fraction": {"rejected_after_implicit_withdraw": 0.05, "accepted_send": 0.3, "withdraw_paid": 0.3},
+        "level_text": "Every message is executed with baseapp's per-message semantics (ValidateBasic, registered handler on a cache-wrapped context, written only on success) against the real app; after every step: module balance == sum over pools of (initially locked - sent - withdrawn), per-pool bounds, the three registered invariants, pool ledger deltas exactly as the accepted message implies, and for a rejected message a digest over every key/value of the cfevesting, bank, auth, staking and distribution stores is unchanged.",
+        "level_note": "Trusted: baseapp semantics as re-implemented in RunMsg (world.go) - identical to runMsgs for single-message transactions. Bounds: 3 owners, <= ~100 steps, amounts <= 10^22 (owners hold 10^24).",
+        "design_ref": "DESIGN.md §5 C05",
+    },
+    "C06": {
+        "title": "Pool time-lock: nothing is withdrawable before lock end, all of it once after",
+        "level": "exploration",
+        "technique": "stateful property-based testing (rapid state machine) with a pre/post oracle on every withdrawal and send, boundary-biased block times, query/transaction agreement",
+        "tests": [T("TestC06", 500, 2500, qshards=2, steps=50)],
+        "rule": "cases = as C05; block time is moved to lock-end-1ns / lock end / lock-end+1ns of existing pools two times out of three. Oracle on every withdraw-all: owner balance delta == sum of (locked remainder) over pools with now >= lock end == response, every other pool untouched, an immediate second withdrawal pays 0, the VestingPools query's withdrawable / currently_locked / sent_amount per pool equal what the same-block withdrawal paid and the ledger; on every send: locked pools lose coins only through their sent counter and only into a previously absent address that is now a continuous vesting account holding exactly that amount. "
+                "Non-trivial = a withdrawal was evaluated for an owner having both a matured and a still locked pool. Distinct = SHA-256 of the history.",
+        "min_nontrivial_fraction": 0.15,
+        "min_class_fraction": {"t_equals_lock_end": 0.10, "matured_and_locked_pools": 0.15},
+        "level_text": "Pre/post oracle around the real MsgWithdrawAllAvailable / MsgSendToVestingAccount handlers and the VestingPools query on generated multi-pool owners at boundary instants.",
+        "level_note": "Same machine and bounds as C05.",
+        "design_ref": "DESIGN.md §5 C06",
+    },
+    "C08": {
+        "title": "New vesting accounts get exactly the documented amount and schedule",
+        "level": "exploration",
+        "technique": "stateful property-based testing (rapid) with an exact-rational oracle for the vested part and the documented schedule rules",
+        "tests": [T("TestC08", 600, 3000, qshards=2, steps=50)],
+        "rule": "cases = as C05. Oracle on every accepted pool send: recipient did not exist before, is a ContinuousVestingAccount holding exactly the amount, original vesting == floor(amount*(1-free)) computed with big.Rat, start/end == (now+lockup, now+lockup+vesting) for restart or (lock end, lock end) otherwise (unix seconds), the pool's sent counter grew by exactly the amount, other pools changed only by the implicit withdrawal; a send above the pool's remaining locked amount or to an existing address must be rejected. On direct creation: sender -coins, recipient +coins, original vesting == coins, given start/end. "
+                "Non-trivial = an accepted send whose free part amount*free is not an integer, or an accepted send of exactly the pool's remainder. Distinct = SHA-256 of the history.",
+        "min_nontrivial_fraction": 0.08,
+        "min_class_fraction": {"fractional_free_part": 0.05, "exact_remainder_amount": 0.03},
+        "level_text": "Generated vesting types, pool states, amounts, restart flags and block times against the documented formulae evaluated in exact arithmetic.",
+        "level_note": "Same machine and bounds as C05.",
+        "design_ref": "DESIGN.md §5 C08",
+    },
+    "C10": {
+        "title": "Emission and distribution can never halt the chain",
+        "level": "exploration",
+        "technique": "stateful property-based testing (rapid state machine): blocks, governance updates, inflows, bank faults and in-place genesis export/import; oracle = recover() around begin/end block processing",
+        "tests": [T("TestC10", 300, 1200, qshards=3, steps=40)],
+        "plain_tests": ["TestRegressC10"],
+        "rule": "cases = generated valid minter configuration x generated valid sub-distributor configuration (integrated-safe: foreign escrow module accounts are never sources), then a rapid state machine (avg 40 steps) over: advance a block by dt in {0,1ns,1ms,1s,1min,1d,30d,1y,5y}x{1..3} or to a schedule boundary (+-1ns,+1ms); inflows; MsgUpdateParams / MsgUpdateMintersParams of the minter built from the valid generator relative to the current time and current period (start in past/future, periods added/removed, mint denomination from a pool that contains invalid denominations); the four distributor update messages; in-place export->JSON->Validate->InitGenesis of cfeminter and cfedistributor; per-call bank fault injection (module-level mode). "
+                "Two execution modes per case: integrated (app.BeginBlocker + app.EndBlocker of the whole module manager) or module level (minter and fault-capable distributor BeginBlockers). Non-trivial = an accepted parameter update after a block that minted, or an export/import after a burn. Distinct = SHA-256 of the history.",
+        "min_nontrivial_fraction": 0.3,
+        "min_class_fraction": {"minter_update_accepted": 0.3, "export_import_after_burn": 0.1, "distributor_replaced": 0.15, "bank_faults_injected": 0.1, "block_at_boundary": 0.3, "integrated": 0.4},
+        "level_text": "Any panic escaping begin-block / end-block processing after any explored history is a violation. Messages are delivered with baseapp semantics through the registered handlers, so only states reachable through validation are explored. A hang is reported as inconclusive, never as a violation.",
+        "level_note": "Bounds (the property's 'sane magnitudes'): amounts <= 10^36, periods/steps >= 1 s, multipliers <= 1, block times within about 60 years of 2023, <= 60 exponential steps per period in the horizon. Full ABCI export/import into a fresh app is exercised by C12, not here.",
+        "design_ref": "DESIGN.md §5 C10",
     },
 }
